@@ -14,4 +14,6 @@ def check(run, replay=None):
                 "signature; L2: generic corpus programs instantiated at concrete types, built, encoded, decoded and dispatched; "
                 "non-trivial = distinct program / operation")
     return msgprops.check(run, "C15", "Props/C15", THEOREMS, {"c01": True, "c02": True}, replay,
-                          translated=("Props/C15T", THEOREMS_T))
+                          translated=[("Props/C15T", THEOREMS_T),
+                                      # the generics of the message type come out of the checker threaded through MsgVariants::new
+                                      ("Props/C01V", ["c01_translated_variants_of_one_kind"])])
